@@ -90,10 +90,19 @@ def handleC15 (fields : List String) : Verdict :=
       let tailsOk := (tails.splitOn ";").all (fun t => t == "<= 1 &")
       let same := got == want && tailsOk
       -- the property's side: cells of the board, pairwise on one diagonal (a constraint that holds for every placement)
-      let sound := got.all (fun l => l.all (· < n * n) &&
-        (l.zip l.tail).all (fun (a, b) => a < b && (b / n - a / n == b % n - a % n) && b / n > a / n))
+      -- (in whatever order a list names them: all in one row, one column or one diagonal)
+      let sound := got.all (fun l => l.all (· < n * n) && (match l.head? with
+        | none => true
+        | some a => l.all (fun b => b / n == a / n) || l.all (fun b => b % n == a % n)
+            || l.all (fun b => b / n + a % n == a / n + b % n) || l.all (fun b => b / n + b % n == a / n + a % n)))
+      -- `<= 1` and `< 2` say the same; `= 1` holds for every placement only over a whole row or column
+      let tailsSound := ((tails.splitOn ";").zip got).all (fun (t, l) =>
+        let t := if t.endsWith " &" then (t.dropEnd 2).toString else t
+        t == "<= 1" || t == "< 2" || (t == "= 1" && l.eraseDups.length == n && (match l.head? with
+          | none => false
+          | some a => l.all (fun b => b / n == a / n) || l.all (fun b => b % n == a % n))))
       { modelOk := same, modelOut := s!"{want.map (·.length)} cells", nontrivial := true,
-        oracle := if sound && tailsOk then none else some s!"one of the first lists for n = {n} is not an at-most-one over cells of one diagonal of the board" }
+        oracle := if sound && tailsSound then none else some s!"one of the first lists for n = {n} is not an at-most-one over cells of one line of the board" }
   | ["text", n, version, bytes] =>
     -- the bytes of the output against the text model (`Queens.text`): a recorded tie, not a verdict —
     -- the property is decided on the parsed tree; `Thm/C15T` speaks about the current code while they agree
@@ -119,13 +128,14 @@ def handleC15 (fields : List String) : Verdict :=
           -- column stands under an exactly-one, every diagonal of two or more cells stands whole under a constraint
           let need := 2 * n - 3
           let o := if (maxv.toNat?.getD 0) > n * n - 1 then some s!"a name v_{maxv} that is not a cell of the {n} x {n} board"
-            else if ok != "1" || sound != "1" then some "a constraint of the large instance does not hold for every placement (cells not on one line, a name that is not a cell, or exactly-one on something else than a whole row or column)"
+            else if sound != "1" then some "a constraint of the large instance does not hold for every placement (cells not on one line, a name that is not a cell, or exactly-one on something else than a whole row or column)"
+            else if ok != "1" then none
             else if rowsE.toNat? != some n then some s!"only {rowsE} of the {n} rows stand under an exactly-one constraint"
             else if colsE.toNat? != some n then some s!"only {colsE} of the {n} columns stand under an exactly-one constraint"
             else if (dDown.toNat?.getD 0) < need || (dUp.toNat?.getD 0) < need then
               some s!"{dDown} / {dUp} of the {need} diagonals (of two or more cells) in each direction stand whole under a constraint: an attacking pair is not excluded"
             else none
-          { modelOk := cnt.toNat? == some (6 * n - 2) && maxv.toNat? == some (n * n - 1), modelOut := s!"{6 * n - 2} constraints",
+          { modelOk := cnt.toNat? == some (6 * n - 2) && maxv.toNat? == some (n * n - 1) && ok == "1", modelOut := s!"{6 * n - 2} constraints",
             oracle := o, nontrivial := true }
         | _ => Verdict.badLine "bad BIG summary"
       else match parseFormula ast with
@@ -311,19 +321,36 @@ open Gen Puzzles
 /-- variables of the sudoku formula: `_c_is_d` is sent as `c * 1024 + d` -/
 def sudokuVid (c d : Nat) : Nat := c * 1024 + d
 
-/-- the counting constraints and the hint literals of a right-nested conjunction ending in `true` -/
+mutual
+/-- the value of a formula without quantifiers and fixed points under an assignment of its variables — whatever its shape
+(the conjunction may start or end with `true`, a constraint may be split in two, …); `none`: a construct outside that
+fragment, or the fuel ran out: then nothing is said about the formula -/
 def holdsConj (board : Nat → Bool) : Nat → Formula → Option Bool
   | 0, _ => none
   | _, .true_ => some true
-  | fuel + 1, .bin .and l r =>
-    let here : Option Bool := match l with
-      | .var v => some (board v)
-      | .cntConst op fs k => (cellsOfList fs).map (fun cells => SemExec.cntSem op (cells.filter board).length k)
-      | _ => none
-    match here, holdsConj board fuel r with
-    | some a, some b => some (a && b)
+  | _, .false_ => some false
+  | _, .var v => some (board v)
+  | fuel + 1, .not f => (holdsConj board fuel f).map (!·)
+  | fuel + 1, .bin op l r =>
+    match holdsConj board fuel l, holdsConj board fuel r with
+    | some a, some b => some (match op with
+      | .and => a && b | .or => a || b | .xor => a != b | .nor => !(a || b) | .nand => !(a && b)
+      | .implies => !a || b | .impliesInv => !b || a | .iff => a == b)
     | _, _ => none
+  | fuel + 1, .ite c t e =>
+    match holdsConj board fuel c, holdsConj board fuel t, holdsConj board fuel e with
+    | some c, some t, some e => some (if c then t else e)
+    | _, _, _ => none
+  | fuel + 1, .cntConst op fs k => (countHolds board fuel fs).map (fun c => SemExec.cntSem op c k)
   | _, _ => none
+def countHolds (board : Nat → Bool) : Nat → List Formula → Option Nat
+  | 0, _ => none
+  | _, [] => some 0
+  | fuel + 1, f :: fs =>
+    match holdsConj board fuel f, countHolds board fuel fs with
+    | some a, some c => some (c + (if a then 1 else 0))
+    | _, _ => none
+end
 
 /-- `sudoku|root|puzzle (hex, whitespace removed)|exit class|tree or ERR|solver rows or -` -/
 def handleC17 (fields : List String) : Verdict :=
@@ -390,7 +417,7 @@ def handleC17 (fields : List String) : Verdict :=
               if holdsConj (boardOf g') fuel f == some true then
                 some s!"the valid grid obtained from the solution by exchanging {d} and {e} does not keep the given {e}s, yet satisfies the emitted formula"
               else none))
-        let oa := match sols.find? (fun g => holdsConj (boardOf g) fuel f != some true) with
+        let oa := match sols.find? (fun g => holdsConj (boardOf g) fuel f == some false) with
           | some g => some s!"the completed grid {g} keeps the givens and is valid, but falsifies the emitted formula"
           | none => none
         -- oracle (b): near misses of every solution are rejected: changing one cell to another number
@@ -417,7 +444,7 @@ def handleC17 (fields : List String) : Verdict :=
           let keeps := fun (g : List Nat) => (List.range (sq * sq)).all (fun c => match givens[c]? with
             | some (some d) => g.getD c 0 == d
             | _ => true)
-          match (solveSudoku r []).find? (fun g => (holdsConj (boardOf g) fuel f == some true) != keeps g) with
+          match (solveSudoku r []).find? (fun g => match holdsConj (boardOf g) fuel f with | some v => v != keeps g | none => false) with
           | some g => some (if keeps g then s!"the valid grid {g} keeps the givens but falsifies the emitted formula"
               else s!"the valid grid {g} does not keep every given, yet satisfies the emitted formula")
           | none => none
